@@ -28,6 +28,37 @@ func (s sscope) with(kv ...any) sscope {
 	return out
 }
 
+// bind is with() for a loop binding; nullable records (under the key "?name") that some item of
+// the collection is nil, so that reads of the name stay within what is defined for a nil item.
+func (s sscope) bind(name string, sample vals.V, nullable bool) sscope {
+	out := s.with(name, sample)
+	delete(out, "?"+name)
+	if nullable {
+		out["?"+name] = vals.Nil()
+	}
+	return out
+}
+
+func (s sscope) nullable(name string) bool { _, ok := s["?"+name]; return ok }
+
+func hasNil(c vals.V) bool {
+	for _, e := range elems(c) {
+		if e.K == "nil" {
+			return true
+		}
+	}
+	return false
+}
+
+func firstNonNil(c vals.V) (vals.V, bool) {
+	for _, e := range elems(c) {
+		if e.K != "nil" {
+			return e, true
+		}
+	}
+	return vals.V{}, false
+}
+
 func (s sscope) lookup(d Data, name string) (vals.V, bool) {
 	if v, ok := s[name]; ok {
 		return v, true
@@ -72,8 +103,8 @@ func htmlPath(sc sscope, d Data, name, scalar string) string {
 
 // sampleElem is a typical item of a collection description.
 func sampleElem(c vals.V) vals.V {
-	if e := elems(c); len(e) > 0 {
-		return e[0]
+	if e, ok := firstNonNil(c); ok {
+		return e
 	}
 	switch c.K {
 	case "[]int", "[3]int":
@@ -163,6 +194,36 @@ func readsFor(sc sscope, d Data, name string, salt int, choose func(n int) int, 
 		return out
 	}
 	keep := func() bool { return choose == nil || choose(3) != 0 }
+	if bound && sc.nullable(name) {
+		// Some item bound to this name is nil. A nil item must read like a never-defined name
+		// (and never like the outer variable it shadows). Only what the control element defines
+		// for such a name is used: {{ }}, == comparisons, plain truthiness - on the name itself.
+		// Below a record (v.name) only path lookup is used: the expression library refuses
+		// member access on nil, and what v-html / v-text print for nil is not this property's.
+		if path != name {
+			return out
+		}
+		l := litFor(s, salt)
+		for _, r := range []Read{
+			{Pos: "tern", Cond: Cond{Path: path, Op: "==", Lit: l}}, {Pos: "vif", Cond: Cond{Path: path, Op: "==", Lit: litFor(s, salt+1)}},
+			{Pos: "vif", Cond: Cond{Path: path}}, {Pos: "attr", Cond: Cond{Path: path}},
+		} {
+			if s.K != "string" && r.Pos == "vif" && r.Op == "" {
+				continue // truthiness of 0 / false vs nil: keep to strings
+			}
+			if keep() {
+				out = append(out, r)
+			}
+		}
+		if rich {
+			for _, r := range []Read{{Pos: "vshow", Cond: Cond{Path: path, Op: "==", Lit: l}}, {Pos: "class", Cond: Cond{Path: path, Op: "==", Lit: l}}, {Pos: "style", Cond: Cond{Path: path}}} {
+				if keep() {
+					out = append(out, r)
+				}
+			}
+		}
+		return out
+	}
 	if !bound {
 		// an unbound name is only compared with ==, like the control element does
 		if keep() {
@@ -229,6 +290,8 @@ func only(n Node, pos ...string) Node {
 	n.Probe.Reads = kept
 	return n
 }
+
+func sampleOK(c vals.V) bool { _, ok := firstNonNil(c); return ok }
 
 func uniq(names []string) []string {
 	seen := map[string]bool{}
@@ -337,6 +400,13 @@ func core1(full bool, yield func(Case) bool) {
 		}
 	}
 	colls = append(colls, vals.V{K: "nil[]any"}, vals.Nil(), vals.Missing())
+	// []any with nil items (JSON null): in the middle of strings, of ints, of maps; first; alone
+	colls = append(colls,
+		vals.List("[]any", vals.Str("a"), vals.Nil(), vals.Str("b")),
+		vals.List("[]any", vals.Nil(), vals.Str("a")),
+		vals.List("[]any", vals.Int(1), vals.Nil(), vals.Int(2), vals.Nil()),
+		vals.List("[]any", mapOf("a", 1), vals.Nil(), mapOf("c", 3)),
+		vals.List("[]any", vals.Nil()))
 	apis := []string{"string", "fragment", "load"}
 	i, rot, rotIdx := 0, 0, 0
 	for _, rs := range rootSetups() {
@@ -399,9 +469,9 @@ func core1(full bool, yield func(Case) bool) {
 					for _, cb := range combos {
 						i++
 						outer := sscope{}
-						inner := outer.with(vn, elem)
+						inner := outer.bind(vn, elem, hasNil(coll))
 						if idx != "" {
-							inner = inner.with(idx, vals.Int(0))
+							inner = inner.bind(idx, vals.Int(0), false)
 						}
 						l := &Loop{ID: "L1", Tag: cb.tag, Idx: idx, Var: vn, Coll: collName, IfFirst: i%2 == 0}
 						if cb.tag != "template" && i%3 != 0 {
@@ -416,7 +486,14 @@ func core1(full bool, yield func(Case) bool) {
 							if s[0].K == "bool" {
 								c = &Cond{Path: p[0]}
 							}
-							if !noExpr(p[0]) {
+							if hasNil(coll) {
+								// a possibly nil item: == on the name itself only (see readsFor)
+								c = &Cond{Path: vn, Op: "==", Lit: litFor(s[0], 0)}
+								if p[0] != vn {
+									c = nil
+								}
+							}
+							if !noExpr(p[0]) && c != nil {
 								l.If = c
 							}
 						case "index":
@@ -454,21 +531,26 @@ func core2(yield func(Case) bool) {
 	x2 := mapOf("c", 3) // no children key
 	xs := vals.V{K: "[]map", L: []vals.V{x0, x1, x2}}
 	ys := vals.List("[]string", vals.Str("p"), vals.Str("q"))
+	// the same with nil items (JSON null) in the middle of every list
+	x0n := mapOf("a", 1)
+	x0n.M["children"] = vals.List("[]any", kid("c"), vals.Nil(), kid("d"))
+	xsNil := vals.List("[]any", x0n, vals.Nil(), x1, x2)
+	ysNil := vals.List("[]any", vals.Str("p"), vals.Nil(), vals.Str("q"))
 	apis := []string{"string", "fragment", "load"}
 	i := 0
 	for _, rs := range rootSetups() {
 		if rs.only != "" {
 			continue // vals.Rec roots have no field for a list of maps
 		}
-		var d Data
-		var xsN, ysN string
+		xsN, ysN := "Xs", "ys"
+		xsSlot, ysSlot := "Xs", "Ys"
 		if rs.kind == "map" {
-			d = Data{Root: "map", Slots: append(append([]Slot{}, rs.scalars...), Slot{"xs", xs}, Slot{"ys", ys})}
-			xsN, ysN = "xs", "ys"
-		} else {
-			d = Data{Root: rs.kind, Slots: append(append([]Slot{}, rs.scalars...), Slot{"Xs", xs}, Slot{"Ys", ys})}
-			xsN, ysN = "Xs", "ys"
+			xsN, ysN, xsSlot, ysSlot = "xs", "ys", "xs", "ys"
 		}
+		mk := func(a, b vals.V) Data {
+			return Data{Root: rs.kind, Slots: append(append([]Slot{}, rs.scalars...), Slot{xsSlot, a}, Slot{ysSlot, b})}
+		}
+		dPlain, dNil := mk(xs, ys), mk(xsNil, ysNil)
 		pool := []string{"a", "b", "i", rs.shadow[0]}
 		for _, oi := range pool {
 			for _, ov := range pool {
@@ -483,13 +565,18 @@ func core2(yield func(Case) bool) {
 						for _, innerColl := range []string{ov + ".children", ysN} {
 							for _, els := range []bool{false, true} {
 								i++
+								nilMid := i/4%2 == 1
+								d := dPlain
+								if nilMid {
+									d = dNil
+								}
 								root := sscope{}
-								o := root.with(oi, vals.Int(0), ov, x0)
+								o := root.bind(oi, vals.Int(0), false).bind(ov, x0, nilMid)
 								innerSample := kid("c")
 								if innerColl == ysN {
 									innerSample = vals.Str("p")
 								}
-								in := o.with(ii, vals.Int(0), iv, innerSample)
+								in := o.bind(ii, vals.Int(0), false).bind(iv, innerSample, nilMid)
 								inner := &Loop{ID: "L2", Tag: []string{"div", "section", "template"}[i%3], Idx: ii, Var: iv, Coll: innerColl,
 									Body: []Node{probeRich("p2", in, d, pool, i, nil, iv)}}
 								if els {
@@ -497,7 +584,7 @@ func core2(yield func(Case) bool) {
 								}
 								// a later loop with its own v-else: it must not be taken for the v-else of L2
 								tail := &Loop{ID: "L3", Tag: "section", Var: "t", Coll: ysN,
-									Body: []Node{only(probeOf("p6", o.with("t", vals.Str("p")), d, []string{"t", iv}, i, nil), "text")},
+									Body: []Node{only(probeOf("p6", o.bind("t", vals.Str("p"), nilMid), d, []string{"t", iv}, i, nil), "text")},
 									Else: &Else{ID: "E3", Sep: elseSeps[(i+1)%len(elseSeps)]}}
 								outer := &Loop{ID: "L1", Tag: "div", Idx: oi, Var: ov, Coll: xsN,
 									Body: []Node{only(probeOf("p1", o, d, pool, i, nil), "text", "tern"), {Loop: inner}, only(probeOf("p4", o, d, pool, i+1, nil), "text", "vif"), {Loop: tail}}}
@@ -518,6 +605,7 @@ func core2(yield func(Case) bool) {
 
 type gen struct {
 	t     *rapid.T
+	nils  bool // []any collections of this case may contain nil items
 	d     Data
 	ids   int
 	roots []string // every name the root data answers to
@@ -581,6 +669,10 @@ func (g *gen) coll(k string, depth int, label string) vals.V {
 	n := g.int(0, max, label+"len")
 	l := []vals.V{}
 	for i := 0; i < n; i++ {
+		if g.nils && strings.HasPrefix(k, "[]any") && g.int(0, 3, fmt.Sprintf("%s%dnil", label, i)) == 0 {
+			l = append(l, vals.Nil()) // JSON null in a decoded list
+			continue
+		}
 		l = append(l, g.elem(k, depth, fmt.Sprintf("%s%d", label, i)))
 	}
 	return vals.V{K: strings.SplitN(k, ":", 2)[0], L: l}
@@ -601,6 +693,7 @@ func (g *gen) anyColl(label string) vals.V {
 }
 
 func (g *gen) data() {
+	g.nils = g.int(0, 2, "nils") == 0
 	switch g.int(0, 9, "root") {
 	case 0, 1, 2:
 		g.d.Root = "map"
@@ -654,7 +747,9 @@ func (g *gen) collPaths(sc sscope) []string {
 	var out []string
 	names := append([]string{}, g.roots...)
 	for _, k := range sortedKeys(sc) {
-		names = append(names, k)
+		if !strings.HasPrefix(k, "?") {
+			names = append(names, k)
+		}
 	}
 	for _, n := range uniq(names) {
 		s, ok := sc.lookup(g.d, n)
@@ -688,6 +783,12 @@ func (g *gen) cond(sc sscope, l *Loop, outerNames []string) *Cond {
 		p, s := paths[pi], samples[pi]
 		if noExpr(p) || strings.HasSuffix(p, ".title") {
 			continue
+		}
+		if sc.nullable(n) {
+			if p != n {
+				continue // no member access on a possibly nil item inside an expression
+			}
+			return &Cond{Path: p, Op: "==", Lit: litFor(s, g.int(0, 9, "iflit"))}
 		}
 		if s.K == "bool" && g.int(0, 1, "iftruthy") == 0 {
 			return &Cond{Path: p}
@@ -729,8 +830,8 @@ func (g *gen) loop(sc sscope, depth int, outerVars []string) []Node {
 	elem := vals.Str("a")
 	c, ok := sc.resolve(g.d, l.Coll)
 	switch {
-	case ok && isSeq(c.K) && len(elems(c)) > 0:
-		elem = elems(c)[0]
+	case ok && isSeq(c.K) && sampleOK(c):
+		elem, _ = firstNonNil(c)
 	case strings.HasSuffix(l.Coll, ".children"):
 		elem = mapOf("a", 1) // children are lists of maps, also where the sample item has none
 	case strings.HasSuffix(l.Coll, ".Kids"):
@@ -738,9 +839,11 @@ func (g *gen) loop(sc sscope, depth int, outerVars []string) []Node {
 	case ok && isSeq(c.K):
 		elem = sampleElem(c)
 	}
-	inner := sc.with(l.Var, elem)
+	// nil items: known for a root collection; for item.children any list of the case may have one
+	nullable := (ok && hasNil(c)) || (g.nils && strings.HasSuffix(l.Coll, ".children"))
+	inner := sc.bind(l.Var, elem, nullable)
 	if l.Idx != "" {
-		inner = inner.with(l.Idx, vals.Int(0))
+		inner = inner.bind(l.Idx, vals.Int(0), false)
 	}
 	// names worth printing: this loop's, the enclosing loops', some root names
 	names := []string{l.Var, l.Idx}
@@ -759,7 +862,7 @@ func (g *gen) loop(sc sscope, depth int, outerVars []string) []Node {
 	}
 	// now and then the looped element itself carries v-html / v-text of its item (no body then)
 	if l.Tag != "template" && g.int(0, 7, "fill") == 0 {
-		if p, _, bound, ok := scalarPaths(inner, g.d, l.Var); ok && bound && !noExpr(p[0]) {
+		if p, _, bound, ok := scalarPaths(inner, g.d, l.Var); ok && bound && !noExpr(p[0]) && !nullable {
 			l.Fill = &Fill{Dir: "v-text", Path: p[0]}
 			if g.int(0, 1, "filldir") == 0 {
 				l.Fill = &Fill{Dir: "v-html", Path: htmlPath(inner, g.d, l.Var, p[0])}
